@@ -456,6 +456,36 @@ func famLoops(quick bool) []*prog.Case {
 			}
 		}
 	}
+	// ranges with a step: the step's form (literal, let, const, call) decides whether the
+	// compiler knows its sign; the iteration must not depend on that
+	for _, sk := range []string{"untyped-lit", "typed-let", "const", "call"} {
+		for _, incl := range []bool{false, true} {
+			for _, sp := range [][3]int64{{0, 6, 2}, {0, 5, 2}, {3, 0, -1}, {6, 0, -2}, {5, 0, -2}, {2, 2, -1}, {2, 2, 1}, {0, 3, -1}, {3, 0, 1}} {
+				for _, bk := range []string{"untyped-lit", "typed-let"} {
+					sk, incl, sp, bk := sk, incl, sp, bk
+					out = append(out, mk(fmt.Sprintf("C01/loops/step/%s/bounds=%s/incl=%v/%d..%d:%d", sk, bk, incl, sp[0], sp[1], sp[2]), func(k K) *fl.Program {
+						p := &fl.Program{}
+						var pre []fl.Stmt
+						mkb := func(kind string, v int64, name string) fl.Expr {
+							if kind == "call" {
+								fn := k.N("b" + name)
+								p.Funcs = append(p.Funcs, &fl.Func{Name: fn, Ret: fl.I32, Body: []fl.Stmt{&fl.Return{X: fl.L(fl.I32, v)}}})
+								return fl.C(fn)
+							}
+							e, s := bound(kind, v, name)
+							pre = append(pre, s...)
+							return e
+						}
+						lo := mkb(bk, sp[0], "lo")
+						hi := mkb(bk, sp[1], "hi")
+						st := mkb(sk, sp[2], "st")
+						body := append(pre, fl.P(fl.S("start")), &fl.ForRange{Var: "i", Lo: lo, Hi: hi, Incl: incl, Step: st, Body: []fl.Stmt{fl.P(fl.V("i"))}}, fl.P(fl.S("end")))
+						return mainProg(p, body...)
+					}))
+				}
+			}
+		}
+	}
 	for _, arr := range []string{"fixed", "dyn"} {
 		for _, binds := range [][2]string{{"i", "v"}, {"_", "v"}, {"i", "_"}, {"_", "_"}} {
 			for _, n := range []int{0, 1, 3} {
